@@ -79,6 +79,19 @@ CHECKS = {
             "depend on what the determinant's sign depends on (permutation parity); the log-magnitude must not be provably non-negative; logdet returns the second component and "
             "forwards both algorithm arguments; Auto picks Cholesky/Lanczos only under PSD.",
             "Accuracy of the Krylov / stochastic trace path and branch cuts are not decided.", "4/C07"),
+    "C08": ("dominance / dependence / idiom checks over the diag and trace rules",
+            "Decides the 'same values or refuses' clause structurally: rules whose formula only holds for the main diagonal (BlockDiag, Kronecker, KronSum) must refuse k != 0, the "
+            "k-generic ones must let k reach the result; self-built off-diagonals have length n - |k|; recursive calls keep (k, alg); the outer-product idiom puts factor i on axis i "
+            "(row-major) with product for Kronecker and sum for KronSum; BlockDiag concatenates with multiplicities; trace = sum of diag(A, 0, alg) after a squareness check and product "
+            "of traces for Kronecker; the Exact/Hutch base case forwards (A, k); Auto constructs Exact on the small-tolerance branch.",
+            "The blocked probing arithmetic of exact_diag (chunk/shift logic for sizes not divisible by the block) and the numerical value of the Auto threshold are runtime quantities and "
+            "are NOT decided.", "4/C08"),
+    "C10": ("provenance dataflow (sort order of spectra) and def-use pairing over the eig rules and their Krylov helpers; decision table of the Auto rule",
+            "Decides the selection mechanism: get_slice maps SM/LM to the first/last k entries, so every spectrum it cuts must be in ascending-magnitude order (eigh: algebraic, eig: "
+            "unordered, x[argsort(x)]: algebraic, x[argsort(|x|)]: magnitude); values and vectors must be permuted by the same argsort index on the column axis (a Permutation operator "
+            "or row index is the transposed permutation) and cut by the same slice; eigmax/eigmin call eig with k=1 and LM/SM; power iteration refuses other requests; Auto chooses "
+            "Lanczos only under SelfAdjoint.",
+            "That returned pairs satisfy A v = lambda v, convergence and linear independence are numerical and not decided.", "4/C10"),
 }
 
 NOT_APPLICABLE = {
